@@ -1,20 +1,14 @@
-(* Finding F8 (C07): the argument of acos in GeneratorSpherical.get_examples exceeds 1 for
-   admissible draws (a = b = 0, c = 1/2, sign +1): theta is NaN in the implementation.
-   Never gates a check; stops compiling when the code is repaired. *)
-From Coq Require Import Reals List Lra.
-From ND.lib Require Import Expr.
-From ND.model Require Import AtomicGen.
-From ND.gen Require Import Gen_C07.
+(* Historical finding F8 (C07), fixed by commit 75057c3 (theta = acos(clamp(z, -1, 1))).
+   The OLD formula theta = acos(sqrt(c/(a+b+c)) + 1e-6) has its argument above 1 at the admissible
+   draws a = b = 0, c = 1/2.  Stated on a literal copy of the old formula: independent of the
+   generated / current code, kept as a record; never gates a check. *)
+From Coq Require Import Reals Lra.
 Open Scope R_scope.
 
-Lemma sph_theta_refuted :
-  exists venv : nat -> R,
-    (0 <= venv v_u0 < 1) /\ (0 <= venv v_u1 < 1) /\ (0 <= venv v_u2 < 1) /\ venv v_s0 = 1
-    /\ 0 < venv v_u0 + venv v_u1 + venv v_u2
-    /\ forall penv fenv, 1 < eval venv penv fenv GSph_equally_spaced_noisy.term_1.
+Definition old_acos_arg (a b c : R) : R := sqrt (c / (a + b + c)) + 1 / 1000000.
+
+Lemma old_sph_theta_refuted : exists a b c, 0 <= a < 1 /\ 0 <= b < 1 /\ 0 <= c < 1 /\ 0 < a + b + c /\ 1 < old_acos_arg a b c.
 Proof.
-  exists (fun v => if Nat.eqb v v_u2 then 1 / 2 else if Nat.eqb v v_s0 then 1 else 0).
-  cbn [Nat.eqb v_u0 v_u1 v_u2 v_s0]. repeat split; try lra.
-  intros penv fenv. cbn [eval GSph_equally_spaced_noisy.term_1 Nat.eqb v_u0 v_u1 v_u2 v_s0].
+  exists 0, 0, (1 / 2). unfold old_acos_arg. repeat split; try lra.
   replace (1 / 2 / (0 + 0 + 1 / 2)) with 1 by field. rewrite sqrt_1. lra.
 Qed.
